@@ -81,7 +81,7 @@ def expected_lists(tr):
     res = tr.result
     exp = {}
     if op == 'merge':
-        if not role_consistent([shape_of(s) for s in ins]):
+        if not space.position_consistent([shape_of(s) for s in ins]):
             return None
         for x in named(res):
             exp[x] = [s.sources.get(x, []) for s in ins if x in named(s)]
